@@ -115,7 +115,17 @@ pub fn build_unvalidated<M: ZooMsg + ?Sized>(buf: &mut [u8], mp: &MsgPlan) -> Re
             tweak_top::<M>(m, &mut Gen::new(&mut d, St::Msgs, 3));
         }
     }
-    if M::validate(buf).is_ok() {
+    match M::validate(buf) {
+        Ok(()) => return Ok(None),
+        // the value does not fit the buffer it was emplaced into (on the pinned tree an emplacer
+        // accepts a few bytes too many when the buffer length is not a multiple of ALIGN – C15
+        // territory): not a message this buffer "can hold", the planner clamps it instead
+        Err(e) if e.kind == flatty::error::ErrorKind::InsufficientSize => return Ok(None),
+        Err(_) => {}
+    }
+    if cfg!(miri) {
+        // mapping a value that does not validate is the library's business in a real sender;
+        // the Miri tier runs receiver-only worlds and never sends
         return Ok(None);
     }
     let m = unsafe { M::from_bytes_unchecked(buf) };
